@@ -1,6 +1,7 @@
 package main
 
 import (
+	"sync"
 	"bufio"
 	"encoding/json"
 	"fmt"
@@ -43,9 +44,22 @@ type procSpec struct {
 // requirements of the last machine assembled from BASM (what 'basm -dump-requirements' writes); the hardware
 // optimisations of the Verilog generator read them through Config.ReqRoot, as cmd/bondmachine -bmrequirements-file does
 var lastReqs *bmreqs.ExportedReqs
+var lastReqsMu sync.Mutex // buildBM is also called from concurrent simulations (c09, c17): the harness itself must be race free
+
+func setLastReqs(r *bmreqs.ExportedReqs) {
+	lastReqsMu.Lock()
+	lastReqs = r
+	lastReqsMu.Unlock()
+}
+
+func getLastReqs() *bmreqs.ExportedReqs {
+	lastReqsMu.Lock()
+	defer lastReqsMu.Unlock()
+	return lastReqs
+}
 
 func buildBM(s *bmSpec) (bm *bondmachine.Bondmachine, err error) {
-	lastReqs = nil
+	setLastReqs(nil)
 	defer func() {
 		if r := recover(); r != nil {
 			err = fmt.Errorf("panic: %v", r)
@@ -77,7 +91,7 @@ func buildBM(s *bmSpec) (bm *bondmachine.Bondmachine, err error) {
 			}
 			bm = bi.GetBondMachine()
 			r := bi.DumpRequirements()
-			lastReqs = &r
+			setLastReqs(&r)
 		})
 		return
 	}
@@ -159,8 +173,8 @@ func writeVerilogFiles(bm *bondmachine.Bondmachine, hwopt []string, flavor strin
 			conf.HwOptimizations = procbuilder.SetHwOptimization(conf.HwOptimizations, id)
 		}
 	}
-	if len(hwopt) > 0 && lastReqs != nil {
-		if rg, e := bmreqs.Import(lastReqs); e == nil {
+	if lr := getLastReqs(); len(hwopt) > 0 && lr != nil {
+		if rg, e := bmreqs.Import(lr); e == nil {
 			conf.ReqRoot = rg
 		}
 	}
